@@ -1,7 +1,8 @@
 #!/usr/bin/env python3
 """make_seed_prompt.py <ID> <round-tag>  -- write /tmp/seed/<ID>.prompt<tag>.txt: the round-1 prompt of that property plus
 the one-line titles of the changes already kept for it (so that the next agent attacks something else) and deliverable
-directories out/<tag>m1, out/<tag>m2.  Nothing else from /verif goes into the prompt."""
+directories out/<tag>m1, out/<tag>m2.  Nothing else from /verif goes into the prompt.  A tag that starts with `f` ("fresh")
+omits the list of earlier changes and the hints: an independent sample, as in the first round."""
 import glob, json, re, sys
 ID, tag = sys.argv[1], sys.argv[2]
 base = open(f'/tmp/seed/{ID}.prompt.txt').read() if __import__('os').path.exists(f'/tmp/seed/{ID}.prompt.txt') else open(f'/verif/seeded/_prompts/{ID}.prompt.txt').read()
@@ -11,10 +12,10 @@ for d in sorted(glob.glob(f'/verif/seeded/{ID}-*/meta.json')):
     done.append(f"  - {m.get('title')} (files: {m.get('files_changed')})")
 note_old = re.search(r'NOTE\. Line numbers.*?\n', base, re.S).group(0)
 note_new = note_old.rstrip('\n') + '\n'
-if done:
+if done and not tag.startswith('f'):
     note_new += ('Other people have ALREADY produced the following changes for this property; yours must be DIFFERENT — attack another clause of the statement, '
                  'another function/site, or another mechanism (look at ALL the anchored files and at code they depend on, including helper modules), not a variation of these:\n' + '\n'.join(done) + '\n')
-if tag not in ('r2',):
+if tag not in ('r2',) and not tag.startswith('f'):
     note_new += ('Kinds of edit that have proved realistic so far (use them as inspiration, pick sites nobody has touched yet): handling of defaults / optional arguments '
                  '(`x or default` where 0, empty or False are legal), timeouts and deadlines (what they cover, whether they shrink, what happens when they expire), the scope of an exception handler or of an '
                  'isinstance test (narrower or wider by one class), the boundary of a lock / critical section, the order of two clean-up or hand-over steps, sharing instead of copying a mutable object, '
